@@ -14,7 +14,7 @@ from . import c07
 
 LIB = sorted(os.path.relpath(p, core.REPO) for p in glob.glob(os.path.join(core.REPO, 'src/avtp/**/*.c'), recursive=True))
 US = dict(WALKER)
-US.update({'printf.0': 1502, 'printf.1': 1502, 'printf.2': 1502, 'puts.0': 200, 'recv.0': 1502, 'write.0': 1502, 'read.0': 20, 'present_data.0': 1502, 'vp_load_input.0': 4})
+US.update({'printf.0': 1502, 'printf.1': 1502, 'printf.2': 1502, 'puts.0': 200, 'recv.0': 1502, 'write.0': 1502, 'read.0': 20, 'present_data.0': 1502, 'vp_load_input.0': 8})
 
 
 def jobs_for(tier, only=None):
@@ -76,8 +76,9 @@ def jobs_for(tier, only=None):
         for udp in (0, 1):
             for fd in (0, 1):
                 scaled('acf-can-listener.%s.%s' % ('udp' if udp else 'raw', 'fd' if fd else 'classic'),
-                       L.acf_can_listener(ndg_s, (udp, fd)), 112 * scale, {'new_packet.0': 112 * scale // 16 + 2, 'harness.0': ndg_s + 1},
-                       ['COVESA_OPEN1722_VERIF_MAX_PDU_SIZE=%d' % (112 * scale)])
+                       L.acf_can_listener(ndg_s, (udp, fd)), 112 * (scale if ndg_s < 3 else 1),
+                       {'new_packet.0': 112 * scale // 16 + 2, 'harness.0': ndg_s + 1},
+                       ['COVESA_OPEN1722_VERIF_MAX_PDU_SIZE=%d' % (112 * (scale if ndg_s < 3 else 1))])
         for udp in (0, 1):
             scaled('hello-world-listener.%s' % ('udp' if udp else 'raw'),
                    L.main_loop_listener('hello-world/hello-world-listener.c', 'hello-world-listener', ndg_s, ['use_udp = %d;' % udp]),
